@@ -548,6 +548,46 @@ theorem C11_resid_level (k : ℝ) (m d : Cell ℝ) :
   · rw [linResid_mask]; norm_num [levelMask]
   · rw [anscombe_mask]; norm_num [levelMask]
 
+/-! ## Round 4: the array layout is irrelevant for the reductions -/
+
+/-- Without auto-fold (data unfolded, or model already folded) `ll`, the optimal scaling and `ll_multinom` only depend on the
+    multiset of (model cell, data cell) pairs: listing the entries of the n-D arrays in any other order (C order, Fortran
+    order, any simultaneous permutation of both spectra) gives the same values.  So the row-major flattening of the model is
+    no assumption for these functions; the layout matters only for the fold, where reversing the flat array is reversing every
+    axis (`C09_mirror_axes`).  FULL STRENGTH for θ / `ll_multinom` (see `C11_theta`). -/
+theorem C11_layout_irrelevant (lgam : ℝ → ℝ) (M D M' D' : MSpec ℝ)
+    (hperm : (M'.cells.zip D'.cells).Perm (M.cells.zip D.cells))
+    (hf : D.folded = false ∨ M.folded = true) (hf' : D'.folded = false ∨ M'.folded = true) :
+    (ll Real.log lgam M' D').val = (ll Real.log lgam M D).val
+    ∧ (optimalScaling M' D').val = (optimalScaling M D).val
+    ∧ (joint M.cells D.cells ≠ [] → (llMultinom Real.log lgam M' D').val = (llMultinom Real.log lgam M D).val) := by
+  have e : effModel M D = M := by rcases hf with h | h <;> simp [effModel, h]
+  have e' : effModel M' D' = M' := by rcases hf' with h | h <;> simp [effModel, h]
+  have hj : (joint M'.cells D'.cells).Perm (joint M.cells D.cells) := by
+    unfold joint; exact (hperm.filter _).map _
+  have hD : sumD (joint M'.cells D'.cells) = sumD (joint M.cells D.cells) := (hj.map _).sum_eq
+  have hM : sumM (joint M'.cells D'.cells) = sumM (joint M.cells D.cells) := (hj.map _).sum_eq
+  refine ⟨?_, ?_, fun hne => ?_⟩
+  · rw [C11_ll_def, C11_ll_def, e, e']
+    exact ((hj.filter _).map _).sum_eq
+  · rw [C11_theta, C11_theta, e, e', hD, hM]
+  · have hne' : joint M'.cells D'.cells ≠ [] := fun h0 => hne (List.Perm.eq_nil (h0 ▸ hj.symm))
+    rw [llMultinom_val Real.log lgam M D (Or.inl rfl) (by rw [e]; exact hne),
+      llMultinom_val Real.log lgam M' D' (Or.inl rfl) (by rw [e']; exact hne'), e, e', hD, hM]
+    exact (((hj.map _).filter _).map _).sum_eq
+
+/-- non-vacuity: a 2×2 array listed row-major and column-major -/
+example : ∃ (M D M' D' : MSpec ℝ), (M'.cells.zip D'.cells).Perm (M.cells.zip D.cells) ∧ M'.cells ≠ M.cells ∧
+    (D.folded = false ∨ M.folded = true) ∧ (D'.folded = false ∨ M'.folded = true) ∧ joint M.cells D.cells ≠ [] := by
+  refine ⟨⟨[2, 2], [⟨9, true, false⟩, ⟨1, false, false⟩, ⟨2, false, false⟩, ⟨9, true, false⟩], false⟩,
+          ⟨[2, 2], [⟨0, true, false⟩, ⟨3, false, false⟩, ⟨4, false, false⟩, ⟨0, true, false⟩], false⟩,
+          ⟨[2, 2], [⟨9, true, false⟩, ⟨2, false, false⟩, ⟨1, false, false⟩, ⟨9, true, false⟩], false⟩,
+          ⟨[2, 2], [⟨0, true, false⟩, ⟨4, false, false⟩, ⟨3, false, false⟩, ⟨0, true, false⟩], false⟩, ?_, ?_, Or.inl rfl, Or.inl rfl, ?_⟩
+  · simp only [List.zip_cons_cons, List.zip_nil_right]
+    exact List.Perm.cons _ (List.Perm.swap _ _ _)
+  · simp
+  · simp [joint]
+
 /-! ## non-vacuity -/
 
 /-- a 1-D spectrum with default corner masks, one more data entry masked, a zero count: the hypotheses of
